@@ -230,7 +230,7 @@ Definition sub_into_string (s : subr) : res text :=
 
 Definition width_minus (s : subr) (prefix_len min_width : N) : res N :=
   let new_width := swidth_ s - prefix_len in
-  if (new_width <? min_width) && negb (o_allow_overflow (sopts s))
+  if ((new_width <? min_width) || (swidth_ s <? prefix_len)) && negb (o_allow_overflow (sopts s))
   then TooNarrow
   else Ok (N.max new_width min_width).
 
@@ -285,7 +285,7 @@ Definition get_wrapping (s : subr) : wblock :=
   | Some w => w
   | None =>
     let wwidth := match wrap_width (sopts s) with
-                  | Some ww => N.max (N.min ww (swidth_ s)) 1
+                  | Some ww => N.min (N.max ww 1) (swidth_ s)
                   | None => swidth_ s
                   end in
     wb_new wwidth (o_pad (sopts s)) (o_allow_overflow (sopts s))
